@@ -313,6 +313,12 @@ class EvalMixin(object):
             return tm.sub(tm.to_real(ta), tm.mul(q, tm.to_real(tb)))
         if op == '**':
             return self.power(ta, tb, line)
+        if op in ('|', '&', '^', '<<', '>>') and ta.sort in (INT, BOOL) and tb.sort in (INT, BOOL):
+            ta, tb = tm.bool_to_int(ta), tm.bool_to_int(tb)
+            nm = {'|': 'bor', '&': 'band', '^': 'bxor', '<<': 'shl', '>>': 'shr'}[op]
+            if op == '>>' and tb.is_const() and 0 <= tb.value() < 64:
+                return tm.idiv_floor(ta, tm.mk_int(1 << tb.value()))       # logical shift of a non-negative value
+            return tm.app(nm, (ta, tb), INT)
         raise Unsupported('binary op %s on terms' % op)
 
     def _div_by_zero(self, ta):
